@@ -229,6 +229,25 @@ class PSpec:
 # ----------------------------------------------------------------------------
 # shapes and symbolic messages
 
+class KeyLit(int):
+    """a numeric match key with its spelling in the DSL text (`007`, `010`): an int for every consumer, the spelling when printed"""
+    def __new__(cls, text):
+        o = int.__new__(cls, int(text, 10))
+        o.text = text
+        return o
+
+    def __str__(self):
+        return self.text
+
+    __repr__ = __str__
+
+    def __deepcopy__(self, memo):
+        return KeyLit(self.text)
+
+    def __reduce__(self):
+        return (KeyLit, (self.text,))
+
+
 class Shape:
     """decides the concrete length of every string / list and the alternative of every
     match; identified by a small tuple so it can be printed in evidence"""
